@@ -57,26 +57,31 @@ volVars   == <<alive, state, mq, tg, res, pendUser, pendClose, closeSent, rcpc>>
 histVars  == <<upstream, ncrash, quirks, nw>>
 vars      == <<scen, logVars, extVars, worldVars, volVars, histVars>>
 
-AllScenarios == {"local", "remote", "localfar", "contest", "claim", "success", "breach", "coop"}
-HTLCs == {"o", "od", "id", "i"}     \* offered with output, offered dust, received dust, received with output (preimage known)
+AllScenarios == {"local", "remote", "localfar", "contest", "claim", "success", "breach", "coop",
+                 "shift", "rshift"}
+\* offered with output, offered dust, received dust, received with output (preimage known), and "n": a newer offered
+\* HTLC that is only on a commitment that did NOT confirm (an update was in flight at close time) - there it takes
+\* output 0 and shifts "o" to output 1, so the output layouts of the commitments in the CommitSet differ
+HTLCs == {"o", "od", "id", "i", "n"}
 Rid   == {"o", "i", "b"}            \* resolver keys: HTLC o, HTLC i, breach
 States == {"Default", "BroadcastCommit", "CommitmentBroadcasted", "ContractClosed",
            "WaitingFullResolution", "FullyResolved"}
 
 (* ---- scenario parameters ------------------------------------------------ *)
-Kind == CASE scen \in {"local", "localfar", "contest", "success"} -> "local"
-          [] scen \in {"remote", "claim"} -> "remote"
+Kind == CASE scen \in {"local", "localfar", "contest", "success", "shift"} -> "local"
+          [] scen \in {"remote", "claim", "rshift"} -> "remote"
           [] scen = "breach" -> "breach"
           [] OTHER -> "coop"
-UserCloses == scen \in {"local", "localfar", "contest", "success"}
+UserCloses == scen \in {"local", "localfar", "contest", "success", "shift"}
 HasOD == scen # "coop"
 HasID == scen \notin {"coop", "success"}
-HasO  == scen \in {"local", "remote", "contest", "claim", "breach"}
+HasO  == scen \in {"local", "remote", "contest", "claim", "breach", "shift", "rshift"}
+HasN  == scen \in {"shift", "rshift"}
 HasI  == scen = "success"
 \* some HTLC is within the broadcast delta from the closing height on
-Near  == scen \in {"local", "remote", "breach"}
+Near  == scen \in {"local", "remote", "breach", "shift", "rshift"}
 \* HTLC o has expired (for the arbitrator's classification) when the commitment confirms
-ExpiredAtClose == scen \in {"local", "remote", "breach"}
+ExpiredAtClose == scen \in {"local", "remote", "breach", "shift", "rshift"}
 \* the chain trigger in StateDefault finds something to do
 ChainFires == (Near /\ late) \/ (scen \in {"contest", "claim"} /\ vlate)
 CloseTrig == Kind          \* localCloseTrigger / remoteCloseTrigger / breachCloseTrigger / coopCloseTrigger
@@ -115,6 +120,8 @@ ClosedOps(t) ==
   THEN <<Op("Ups", "fail", (IF HasO THEN {"o"} ELSE {}) \cup (IF HasOD THEN {"od"} ELSE {})),
          Op("InsUnres", "", {"b"})>> \o Go("WaitingFullResolution")
   ELSE (IF Full(t) /\ HasID THEN <<Op("Final", "id", {})>> ELSE <<>>)
+       \* an HTLC that is only on a commitment that did not confirm is failed back now (HtlcFailDanglingAction)
+       \o (IF Full(t) /\ HasN THEN <<Op("Ups", "fail", {"n"})>> ELSE <<>>)
        \o <<Op("InsUnres", IF Full(t) THEN "" ELSE "partial", IF Full(t) THEN NewRids ELSE {})>>
        \o Go("WaitingFullResolution")
 
@@ -445,6 +452,7 @@ RCWipe ==
 (* ---- outcome ---------------------------------------------------------------------------- *)
 RefUp == [h \in HTLCs |-> CASE h = "od" -> (IF HasOD THEN {"fail"} ELSE {})
                             [] h = "o"  -> (IF ~HasO THEN {} ELSE IF scen = "claim" THEN {"settle"} ELSE {"fail"})
+                            [] h = "n"  -> (IF HasN THEN {"fail"} ELSE {})
                             [] OTHER -> {}]
 RefFin == [h \in HTLCs |-> CASE h = "id" -> (IF HasID /\ Kind # "breach" THEN "failed" ELSE "none")
                              [] h = "i"  -> (IF HasI THEN "settled" ELSE "none")
